@@ -548,6 +548,11 @@ fn server_family(ctx: &mut Ctx) {
     for bad in &bads {
         let splits: Vec<usize> = if ctx.quick() { vec![0, 5, bad.len().saturating_sub(3)] } else { (0..bad.len().min(60)).chain([bad.len().saturating_sub(3), bad.len() / 2]).collect() };
         for split in splits {
+            // the first write must not already contain the offending element: otherwise the tail of the
+            // rejected request arrives after the error and is, rightly, parsed as new input
+            if split > 0 && split < bad.len() && crate::model::m1(&bad[..split], 51200).events.iter().any(|e| matches!(e, M1Event::Error { .. })) {
+                continue;
+            }
             for cont in &conts {
                 for pre in [false, true] {
                     idx += 1;
